@@ -364,6 +364,58 @@ def maps_correspondence(run, rng, binpath, ncases, nbig, extra_programs=(), fixe
 
 
 # ------------------------------------------------------------------------------------------------
+# (iii) realm mechanism: generated cross-realm call trees, current-realm probes vs Deep_Realm_C20.run
+
+def realm_correspondence(run, rng, binpath, ncases):
+    cases = []
+    feat = Counter()
+    for i in range(ncases):
+        mj, defs, coq, K, feats = G.realm_tree(rng)
+        cases.append(("t%d" % i, mj, defs, coq, K))
+        for f in feats:
+            feat[f] += 1
+    jobs = chunks([(cid, "kind=tree,realms=%d" % K, mj, "\x1e".join("%d|%s" % d for d in defs)) for cid, mj, defs, coq, K in cases], 6)
+    outs = {}
+    for r in pool_map(lambda ch: run_iso(binpath, ch), jobs):
+        if r:
+            outs.update(r)
+    body = ["From Coq Require Import List.", "From C20 Require Import Deep_Realm_C20.", "Import ListNotations.",
+            "Definition enc (l : list act) (k : nat) := map (fun e => match e with EProbe r => r | ECatch => 999 end) (rev (tr (fst (run_list l (init 0 k)))))."]
+    for cid, mj, defs, coq, K in cases:
+        body.append("Eval vm_compute in (enc %s %d)." % (coq, K))
+    rc, out, err = vlib.coq_eval("Cases_C20_realm_%d" % os.getpid(), "\n".join(body) + "\n")
+    if rc != 0:
+        return None, {"error": "model evaluation failed: " + (err or out)[-1500:]}, feat, {}
+    blocks = re.split(r"^\s*= ", out, flags=re.M)[1:]
+    if len(blocks) != len(cases):
+        return None, {"error": "model output count %d != %d" % (len(blocks), len(cases))}, feat, {}
+    bad = []
+    stats = Counter()
+    for (cid, mj, defs, coq, K), b in zip(cases, blocks):
+        model = [int(x) for x in re.findall(r"\d+", b.split("\n     :")[0])]
+        r = outs.get(cid)
+        if not r:
+            stats["discarded_timeouts"] += 1
+            continue
+        status, trace, comp = r[0]
+        try:
+            lines = json.loads(trace)
+        except ValueError:
+            lines = ["?"]
+        impl = [999 if l == "C" else (int(l[2:]) if re.fullmatch(r"P \d+", l) else -1) for l in lines]
+        stats["probes"] += sum(1 for x in model if x != 999)
+        stats["abrupt_paths"] += sum(1 for x in model if x == 999)
+        run.count(("realm-tree", coq), len(model) >= 4)
+        if len(run.cov["samples"]) < 6 and len(model) >= 6:
+            run.sample({"kind": "realm call tree", "model_tree": coq[:400], "program": mj[:300], "probes_model": model[:30], "probes_impl": impl[:30]})
+        if status != "ok" or impl != model:
+            restored = len(impl) >= 2 and impl[0] == impl[-1]
+            bad.append({"case": cid, "program": mj, "defs": defs, "realms": K, "tree": coq, "model": model, "impl": impl, "raw": [status, comp],
+                        "host_realm_restored": restored})
+    return bad, None, feat, dict(stats)
+
+
+# ------------------------------------------------------------------------------------------------
 # search: determinism / isolation
 
 def sab_mode(rng, kind):
